@@ -7,7 +7,11 @@ strings: exhaustive enumeration over a 13-character alphabet, every Unicode scal
 frames, 255-byte boundaries, generated/mutated names, random long names.  Observables: accept/reject
 of the five validators and ObjectPath::new, Ok/Err of wire::marshal::marshal with the string in each of
 the six name positions of the header (and the names found in the produced bytes), Ok/Err of pushing the
-string as an object path into a message body.  Because the model is *proved* equal to the
+string as an object path into a message body, and the receive direction (top-level and nested in array /
+struct / dict key / dict value / variant, through validate(), get_param() and the typed get).  Long strings
+(4 KiB .. 1 MiB; object paths have no length limit) are sent as "rep" descriptors; above MODEL_MAX_QUICK
+bytes the quick tier judges them by spec_path (the grammar in Python), which is compared with the extracted
+model on all shorter long strings.  Because the model is *proved* equal to the
 specification, an accept/reject difference between implementation and model is an input on which
 the implementation differs from the specification: a concrete violation.
 """
@@ -22,7 +26,9 @@ import vlib
 # a Z 0 9 _ - . : / e-acute arabic-indic-digit-three NUL space
 ALPHA = ["a", "Z", "0", "9", "_", "-", ".", ":", "/", "é", "٣", "\x00", " "]
 ALPHA_ARG = ",".join("%x" % ord(c) for c in ALPHA)
-DEFAULT_TAIL = "P:err I:err E:err B:err M:err O:err W:eeeeee Y:eeeeee T:eeeeee R:ee H:eeeeee"
+DEFAULT_TAIL = "P:err I:err E:err B:err M:err O:err W:eeeeee Y:eeeeee T:eeeeee R:ee N:eeeeeeeeeeeeeee H:eeeeee"
+# the line of a valid object path longer than 255 bytes (no name language contains it)
+LONG_PATH_TAIL = "P:ok I:err E:err B:err M:err O:ok W:oeeeee Y:oooooo T:oooooo R:oo N:ooooooooooooooo H:oeeeee"
 NAMES = {"P": "validate_object_path", "I": "validate_interface", "E": "validate_errorname",
          "B": "validate_busname", "M": "validate_membername", "O": "ObjectPath::new"}
 WPOS = ["path", "interface", "member", "error_name", "destination", "sender"]
@@ -33,6 +39,11 @@ CTORS = ["ObjectPath::<String>::new", "TryFrom<&str> for ObjectPath", "TryFrom<S
 ROUTES = ["params::Base::ObjectPath(String)", "params::Base::ObjectPathRef(&str)", "an array element (Param API)", "a variant value (Param API)",
           "a dict key (Param API)", "a struct field (Param API)"]
 RECV = ["MessageBodyParser::get_param", "MarshalledMessageBody::validate (validate_raw)"]
+NROUTES = ["the second element of an array (ao)", "a field of a struct (yo)", "a dict key (a{oy})", "a dict value (a{yo})",
+           "the content of a variant (v holding o)"]
+NDEC = ["MarshalledMessageBody::validate (validate_raw)", "MessageBodyParser::get_param",
+        "MessageBodyParser::get::<..> (typed API with ObjectPath wrappers)"]
+MODEL_MAX_QUICK = 300000      # longer strings are judged by spec_path (Python) in the quick tier: the extracted model needs ~30 s for 1 MiB
 
 # frames (prefix, suffix) around one scalar value; their letters x b m q 1 7 are not in ALPHA, so
 # frame strings never coincide with enumerated strings (except the bare character, accounted for)
@@ -53,10 +64,12 @@ def hx(b):
     return b.hex() if b else "-"
 
 
-def run_tasks(exe, tasks, timeout=3000):
-    """each task (list of input lines) in its own process; returns (rc, output lines, stderr) per task"""
+def run_tasks(exe, tasks, timeout=3000, big_stack=False):
+    """each task (list of input lines) in its own process; returns (rc, output lines, stderr) per task.
+    big_stack: lift the stack limit (the extracted list functions are not tail recursive; long strings)"""
+    cmd = ["sh", "-c", 'ulimit -s unlimited 2>/dev/null || ulimit -s "$(ulimit -Hs)" 2>/dev/null; exec "$0"', exe] if big_stack else [exe]
     def one(lines):
-        p = subprocess.run([exe], input="\n".join(lines) + "\n", stdout=subprocess.PIPE,
+        p = subprocess.run(cmd, input="\n".join(lines) + "\n", stdout=subprocess.PIPE,
                            stderr=subprocess.PIPE, text=True, timeout=timeout)
         return p.returncode, p.stdout.split("\n")[:-1], p.stderr
     with cf.ThreadPoolExecutor(vlib.NPROC) as ex:
@@ -256,6 +269,16 @@ def judge(impl_line, model_line):
             viol.append("%s refuses an object path a conforming peer may send" % RECV[c])
         elif ri != rm:
             other.append("%s: %s (model %s)" % (RECV[c], ri, rm))
+    for c, (ni, nm) in enumerate(zip(i.get("N", "?" * 15), m.get("N", "?" * 15))):
+        route, dec = NROUTES[c // 3], NDEC[c % 3]
+        if nm != ("o" if path_ok else "e"):
+            other.append("model nested-receive verdict inconsistent with model validator")
+        if ni in ("o", "x") and not path_ok:
+            viol.append("%s accepts from the wire, as %s, an object path the specification forbids" % (dec, route))
+        elif ni in ("e", "p") and path_ok:
+            viol.append("%s refuses, as %s, an object path a conforming peer may send" % (dec, route))
+        elif ni != nm:
+            other.append("%s, path as %s: %s (model %s)" % (dec, route, ni, nm))
     hdetail = {}
     for part in (i.get("HD") or "").split(","):
         if "=" in part:
@@ -275,6 +298,111 @@ def judge(impl_line, model_line):
         elif hi != hm:
             other.append("header decode with the string as %s: %s %s (model %s)" % (WPOS[pos], hi, hdetail.get(pos, ""), hm))
     return viol, other
+
+
+# ------------------------------------------------------------------ long strings ("rep" lines)
+PATH_CHARS = set("abcdefghijklmnopqrstuvwxyzABCDEFGHIJKLMNOPQRSTUVWXYZ0123456789_")
+
+
+def spec_path(s):
+    """'Valid Object Paths' of the D-Bus specification, written directly in Python (no length limit): begins with '/',
+    elements separated by single '/', no empty element, no trailing '/' except for the root path, only [A-Za-z0-9_]"""
+    if s == "/":
+        return True
+    if not s.startswith("/"):
+        return False
+    return all(e != "" and set(e) <= PATH_CHARS for e in s[1:].split("/"))
+
+
+def rep_text(d):
+    pfx, unit, count, sfx = d
+    return pfx + unit * count + sfx
+
+
+def rep_line(d):
+    pfx, unit, count, sfx = d
+    return "rep %s %s %d %s" % (hx(pfx.encode()), hx(unit.encode()), count, hx(sfx.encode()))
+
+
+def rep_label(d):
+    return rep_line(d).replace(" ", "/")
+
+
+def rep_describe(d):
+    return "%r + %r * %d + %r (%d bytes)" % (d[0], d[1], d[2], d[3], len(rep_text(d).encode()))
+
+
+def rep_predicted(d):
+    """the line the specification requires for a string of more than 255 bytes, from spec_path"""
+    t = rep_text(d)
+    assert len(t.encode()) > 255
+    return "%s %s" % (rep_label(d), LONG_PATH_TAIL if spec_path(t) else DEFAULT_TAIL)
+
+
+def rep_of_token(tok):
+    _, pfx, unit, count, sfx = tok.split("/")
+    dec = lambda h: "" if h == "-" else bytes.fromhex(h).decode("utf-8")
+    return (dec(pfx), dec(unit), int(count), dec(sfx))
+
+
+def long_descriptors(r, thorough):
+    """object paths of 4 KiB .. 1 MiB: one element / many 1-character elements / many mixed elements, valid and with
+    one defect at the very end or the very start; exact byte lengths around 64 KiB; seeded lengths in between"""
+    sizes = [4096, 65535, 65536, 65537, 131072, 1 << 20]
+    sizes += [r.randrange(257, 4096), r.randrange(4097, 65535), r.randrange(65538, 300000)]
+    if thorough:
+        sizes += [r.randrange(300000, 1 << 20), (1 << 20) + 1, 1 << 21]
+    out = []
+    for n in sizes:
+        # valid, exactly n bytes
+        out.append(("/", "a", n - 1, ""))                                   # one element
+        out.append(("", "/a", n // 2, "a" * (n % 2)))                       # n/2 elements (more than 256; more than 65536 from 128 KiB on)
+        out.append(("", "/Ab_9", n // 5, ["", "z", "/z", "/zz", "/zzz"][n % 5]))
+        # one defect, n bytes (or n +- 1)
+        out.append(("/", "a", n - 2, "-"))                                  # bad character at the very end
+        out.append(("/", "a", n - 2, "/"))                                  # trailing slash
+        out.append(("/", "a", n - 4, "//a"))                                # empty element at the end
+        out.append(("/", "a", n - 3, "\u00e9"))                             # non-ASCII at the end
+        out.append(("", "/a", n // 2 - 1, "/-"))
+        out.append(("", "/a", n // 2 - 1, "a/"))
+        out.append(("", "/a", n // 2 - 1, "//"))
+        out.append(("/", "/a", n // 2, ""))                                 # empty first element
+        out.append(("a", "/a", n // 2, ""))                                 # no leading slash
+        out.append(("", "/a", n // 2 - 1, "/a\x00"))
+    # the other kinds at this size: valid shapes of names, far beyond 255 bytes (must be refused everywhere)
+    for n in (4096, 65537):
+        out.append(("a", ".b", n // 2, ""))
+        out.append((":1", ".2", n // 2, ""))
+        out.append(("", "m", n, ""))
+    return list(dict.fromkeys(out))
+
+
+def shrink_rep(ctx, d, clause):
+    """smallest repetition count (bisection, assuming the failure is monotone in the length) on which the same
+    clause still fails; judged against rep_predicted (the specification predicate in Python)"""
+    exe, _ = getattr(ctx, "c08_bins", (None, None))
+    if not exe:
+        return None
+    def fails(count):
+        dd = (d[0], d[1], count, d[3])
+        if len(rep_text(dd).encode()) <= 255:
+            return None
+        (rc, out, _), = run_tasks(exe, [[rep_line(dd)]])
+        if rc != 0 or len(out) != 1:
+            return None
+        lm = rep_predicted(dd)
+        return (dd, out[0], lm) if clause in judge(out[0], lm)[0] else None
+    lo, hi, best = 256 // max(1, len(d[1].encode())), d[2], None
+    for _ in range(40):
+        if lo >= hi:
+            break
+        mid = (lo + hi) // 2
+        got = fails(mid)
+        if got:
+            best, hi = got, mid
+        else:
+            lo = mid + 1
+    return best
 
 
 def shrink(ctx, text, viol, li, lm):
@@ -306,6 +434,25 @@ def report(ctx, li, lm):
     ctx.disagreements_checked += 1
     viol, other = judge(li, lm)
     h = li.split(" ", 1)[0]
+    if h.startswith("rep/"):
+        d = rep_of_token(h)
+        if viol:
+            data = {"input_line": rep_line(d), "input": rep_describe(d), "impl": li, "spec_model": lm}
+            if getattr(ctx, "nviol", 0) < 5:
+                try:
+                    small = shrink_rep(ctx, d, viol[0])
+                    if small and small[0] != d:
+                        data = {"input_line": rep_line(small[0]), "input": rep_describe(small[0]), "impl": small[1],
+                                "spec_model": small[2], "shrunk_from": rep_describe(d), "shrunk_from_line": rep_line(d),
+                                "note": "spec_model of the shrunk input is the line required by the specification predicate spec_path (Python)"}
+                        viol = judge(small[1], small[2])[0] or viol
+                except Exception:
+                    pass
+            ctx.violation("; ".join(viol), data)
+        else:
+            ctx.tie_broken("correspondence: " + "; ".join(other or ["lines differ on a point the property does not constrain"]),
+                           "input %s\nimpl:  %s\nmodel: %s" % (rep_describe(d), li, lm))
+        return
     try:
         text = bytes.fromhex(h).decode("utf-8") if h != "-" else ""
     except ValueError:
@@ -385,21 +532,30 @@ def run(ctx):
                 "with any accepting verdict plus the totals; (2) %s as the one varying character in %d valid "
                 "frames (/x<c>, x.<c>b, :1.<c>, m<c>, <c> alone, ...); (3) the 253..257/300/302/511-byte boundary built from valid shapes of "
                 "every kind, also with 2/3/4-byte characters next to the boundary; (4) grammar-generated valid names of every kind and "
-                "their single/double mutations, random long names, a fixed list, the corpus. Every string goes to the five validators, "
+                "their single/double mutations, random long names, a fixed list, the corpus; (5) long strings of 4 KiB, 64 KiB-1/64 KiB/64 KiB+1, 128 KiB, "
+                "1 MiB and seeded lengths in between (object paths have no length limit): one element, n/2 one-character elements (more than 256 and more "
+                "than 65536 elements), mixed elements, each valid and with one defect at the very end or start (bad character, non-ASCII, NUL, empty element, "
+                "trailing slash, no leading slash), and name shapes far beyond 255 bytes; up to %d bytes judged by the extracted model (which must also agree "
+                "with the specification predicate spec_path written in Python), longer ones%s by spec_path alone. Every string goes to the five validators, "
                 "every way of obtaining an ObjectPath wrapper (new for &str and String, TryFrom<&str>, TryFrom<String>, to_owned, impl Unmarshal for "
                 "ObjectPath<&str>/<String> on body bytes holding the string) followed by the typed Marshal impl with the value read back from the body "
                 "bytes, marshal() with the string in each of the six header name positions "
                 "in 8 configurations (message type Call/Signal/Reply/Error built with the public builders x only-required-fields/all-fields, names "
                 "read back from the header bytes), a body object path pushed with the Param API by six routes (Base::ObjectPath, Base::ObjectPathRef, array "
                 "element, variant value, dict key, struct field; exact body bytes compared), and the receive direction: body bytes holding the string "
-                "as type o through get_param and MarshalledMessageBody::validate, and a hand-encoded header carrying the string in each name position "
+                "as type o through get_param and MarshalledMessageBody::validate, the same string as an object path NESTED in hand-encoded body bytes (second "
+                "array element ao, struct field (yo), dict key a{oy}, dict value a{yo}, variant content) through validate(), get_param() and the typed "
+                "get::<Vec<ObjectPath>/(u8,ObjectPath)/HashMap<ObjectPath,u8>/HashMap<u8,ObjectPath>/Variant>() with the decoded value compared, and a hand-encoded header carrying the string in each name position "
                 "(same 8 configurations) through unmarshal_header + unmarshal_dynamic_header. "
                 "A case is non-trivial when some verdict accepts it or it contains both a separator (/ . :) and a name character; "
-                "distinct = distinct strings") % (maxlen, scan_txt if thorough else scan_txt % NSAMPLE_CPS, len(FRAMES))
+                "distinct = distinct strings") % (maxlen, scan_txt if thorough else scan_txt % NSAMPLE_CPS, len(FRAMES), MODEL_MAX_QUICK,
+                                                  " (none in this tier)" if thorough else " (the 1 MiB ones; quick tier only)")
     ctx.trusted = ["Coq 8.16.1 kernel (coqc), no native_compute",
                    "extraction with ExtrOcamlBasic only, ocamlfind ocamlopt 4.13.1",
                    "ocaml/c08/driver.ml (UTF-8 decoder, cross-checked against the extracted utf8_bytes on every explicit string) and harness/src/bin/c08.rs (I/O wrappers, an independent header-field reader)",
                    "coq/Names/Spec.v is my reading of the D-Bus specification's 'Valid Object Paths' and 'Valid Names' (guarded by a comparison with libdbus when installed)",
+                   "checks/c08.py spec_path (the object-path grammar in Python): the only judge of strings above %d bytes in the quick tier; compared with the extracted model on every shorter long string" % MODEL_MAX_QUICK,
+                   "ocaml/c08/driver.ml maps the nested receive routes (container element/field/key/value/variant content) to the model's three base decoders of type o; the container layout itself is C03/C04's subject",
                    "coq/Names/Str.v is my reading of str::split/split_once/strip_prefix/len and char::is_ascii_* (tied to std by the differential run)"]
     ctx.assumptions = ["SignatureWrapper (the other wrapper type in wrapper_types.rs) belongs to C07 (signatures), not to this property",
                        "strings are Rust &str (valid UTF-8); the model works on the list of scalar values",
@@ -495,6 +651,49 @@ def run(ctx):
             if fns and "P" in d:
                 libdbus_compare(ctx, fns, raw, d, lstats)
     ctx.count("corpus", ncorpus)
+
+    # ---------------- stream 1b: long strings (4 KiB .. 1 MiB), sent as "rep" descriptors
+    descs = long_descriptors(ctx.sub_rng("long"), thorough)
+    llines = [rep_line(d) for d in descs]
+    by_model = [k for k, d in enumerate(descs) if thorough or len(rep_text(d).encode()) <= MODEL_MAX_QUICK]
+    impl = run_tasks(exe, [[l] for l in llines])
+    model = dict(zip(by_model, run_tasks(drv, [[llines[k]] for k in by_model], big_stack=True)))
+    for k, d in enumerate(descs):
+        rc_i, out_i, err_i = impl[k]
+        text = rep_text(d)
+        nbytes = len(text.encode())
+        want = rep_predicted(d)                      # the specification predicate in Python
+        lm = None
+        if k in model:
+            rc_m, out_m, err_m = model[k]
+            if rc_m == 0 and len(out_m) == 1:
+                lm = out_m[0]
+                ctx.count("long:judged_by_extracted_model")
+                if lm != want:
+                    ctx.tie_broken("correspondence: the extracted model and the specification predicate spec_path (Python) differ on a long string",
+                                   "input %s\nmodel:  %s\npython: %s" % (rep_describe(d), lm, want))
+                    continue
+            else:
+                ctx.count("long:model_driver_failed_judged_by_python_predicate")
+                sys.stderr.write("NOTE: C08 model driver failed on %s (%s); judged by spec_path\n" % (rep_describe(d), err_m.strip()[-200:]))
+        if lm is None:
+            lm = want
+            ctx.count("long:judged_by_python_predicate")
+        if rc_i != 0 or len(out_i) != 1:
+            ctx.tie_broken("harness c08 crashed or produced short output on a long string", "input %s\n%s" % (rep_describe(d), err_i[-2000:]))
+            continue
+        li = out_i[0]
+        ok = spec_path(text)
+        ctx.case(llines[k], nontrivial=True,
+                 sample={"input": rep_describe(d), "impl": li.split(" ", 1)[1], "model": lm.split(" ", 1)[1]} if ok and nbytes == 65537 and d[1] == "/a" else None)
+        ctx.count("long:valid_path" if ok else "long:rejected_by_all")
+        ctx.count("long:bytes>65536" if nbytes > 65536 else ("long:bytes>=4096" if nbytes >= 4096 else "long:bytes<4096"))
+        if text.count("/") > 65536:
+            ctx.count("long:more_than_65536_elements")
+        elif text.count("/") > 256:
+            ctx.count("long:more_than_256_elements")
+        if li != lm:
+            report(ctx, li, lm)
 
     # ---------------- stream 2: exhaustive enumeration over ALPHA
     tasks = []
@@ -617,9 +816,13 @@ def replay(ctx, body):
     exe = vlib.harness_build(["c08"])["c08"]
     vlib.coq_make(["Names/Wire.vo"])
     drv = vlib.ocaml_build("c08")
-    line = "s " + data["input_hex"]
+    line = data.get("input_line") or "s " + data["input_hex"]
     li = run_tasks(exe, [[line]])[0][1][0]
-    lm = run_tasks(drv, [[line]])[0][1][0]
+    if line.startswith("rep ") and len(rep_text(rep_of_token(line.replace(" ", "/"))).encode()) > MODEL_MAX_QUICK:
+        lm = rep_predicted(rep_of_token(line.replace(" ", "/")))
+        print("(specification side: spec_path in Python; the string is too long for the extracted model in reasonable time)")
+    else:
+        lm = run_tasks(drv, [[line]], big_stack=True)[0][1][0]
     viol, other = judge(li, lm)
     print("input:", repr(data.get("input")))
     print("impl :", li)
